@@ -437,3 +437,225 @@ Proof.
     apply get_elems_enc. apply expand_ok, Hd.
   - pose proof (bytes_total _ H1) as E. unfold len in E. lia.
 Qed.
+
+(* ------------------------------------------------------------------ declared bounds *)
+Lemma fold_fmin_spec r w :
+  In (fold_left fmin r w) (w :: r) /\ forall x, In x (w :: r) -> (fkey (fold_left fmin r w) <= fkey x)%Z.
+Proof.
+  revert w. induction r as [|y r IH]; intros w; cbn [fold_left].
+  - split; [left; reflexivity|]. intros x [<-|[]]. lia.
+  - destruct (IH (fmin w y)) as (Hin & Hle). split.
+    + destruct Hin as [E|Hin]; [|right; right; exact Hin]. rewrite <- E. unfold fmin.
+      destruct (fkey y <? fkey w)%Z; [right; left; reflexivity|left; reflexivity].
+    + intros x Hx. assert (Hm : (fkey (fmin w y) <= fkey w /\ fkey (fmin w y) <= fkey y)%Z).
+      { unfold fmin. destruct (fkey y <? fkey w)%Z eqn:E; lia. }
+      pose proof (Hle (fmin w y) (or_introl eq_refl)).
+      destruct Hx as [<-|[<-|Hx]]; [lia|lia|]. apply Hle. right. exact Hx.
+Qed.
+Lemma fold_fmax_spec r w :
+  In (fold_left fmax r w) (w :: r) /\ forall x, In x (w :: r) -> (fkey x <= fkey (fold_left fmax r w))%Z.
+Proof.
+  revert w. induction r as [|y r IH]; intros w; cbn [fold_left].
+  - split; [left; reflexivity|]. intros x [<-|[]]. lia.
+  - destruct (IH (fmax w y)) as (Hin & Hle). split.
+    + destruct Hin as [E|Hin]; [|right; right; exact Hin]. rewrite <- E. unfold fmax.
+      destruct (fkey w <? fkey y)%Z; [right; left; reflexivity|left; reflexivity].
+    + intros x Hx. assert (Hm : (fkey w <= fkey (fmax w y) /\ fkey y <= fkey (fmax w y))%Z).
+      { unfold fmax. destruct (fkey w <? fkey y)%Z eqn:E; lia. }
+      pose proof (Hle (fmax w y) (or_introl eq_refl)).
+      destruct Hx as [<-|[<-|Hx]]; [lia|lia|]. apply Hle. right. exact Hx.
+Qed.
+
+(* component j of the declared min / max: attained by a stored, NaN-free element and bounding all of
+   them in float order ([fkey] is the order-embedding of non-NaN float32 patterns into Z, -0 < +0);
+   when no element is usable the writer's start values +-MaxFloat64 are left *)
+Theorem minmax_of_sound c k es j : (j < N.to_nat k)%nat ->
+  let u := col j (mm_elems c es) in
+  match u with
+  | [] => nth_error (fst (minmax_of c k es)) j = Some MHi /\ nth_error (snd (minmax_of c k es)) j = Some MLo
+  | _ => exists lo hi,
+      nth_error (fst (minmax_of c k es)) j = Some (MF lo) /\ nth_error (snd (minmax_of c k es)) j = Some (MF hi) /\
+      In lo u /\ In hi u /\ forall x, In x u -> (fkey lo <= fkey x <= fkey hi)%Z
+  end.
+Proof.
+  intros Hj. unfold minmax_of. cbn [fst snd].
+  assert (Hs : nth_error (seq 0 (N.to_nat k)) j = Some j).
+  { rewrite nth_error_nth' with (d := O) by (rewrite seq_length; exact Hj). rewrite seq_nth by exact Hj. reflexivity. }
+  rewrite !nth_error_map, Hs. cbn [option_map]. unfold col_min, col_max, fold_mm.
+  destruct (col j (mm_elems c es)) as [|w r] eqn:E; cbv zeta; [split; reflexivity|].
+  exists (fold_left fmin r w), (fold_left fmax r w).
+  destruct (fold_fmin_spec r w) as (I1 & L1). destruct (fold_fmax_spec r w) as (I2 & L2).
+  repeat split; auto.
+Qed.
+
+(* ------------------------------------------------------------------ index width and values *)
+Theorem index_width_rule idx n i :
+  a_comp (acc_of i (idx_chunk idx n)) = (if n <=? 65535 then 5123 else 5125).
+Proof.
+  unfold idx_chunk, acc_of, index_comp. cbn [a_comp ck_comp].
+  destruct (65535 <? n) eqn:E; destruct (n <=? 65535) eqn:E'; try reflexivity; lia.
+Qed.
+
+Theorem index_values_kept idx n : Forall (fun i => i < n) idx -> n < 4294967296 ->
+  ck_data (idx_chunk idx n) = plain (map (fun i => [i]) idx) /\
+  Forall (fun i => i + 1 < 256 ^ comp_size (index_comp n)) idx /\
+  chunk_ok (idx_chunk idx n).
+Proof.
+  intros Hi Hn. unfold idx_chunk, index_comp. cbn [ck_data ck_comp ck_k].
+  assert (Hw : Forall (fun i => index_word (if 65535 <? n then CUInt else CUShort) i = i
+                               /\ i + 1 < 256 ^ comp_size (if 65535 <? n then CUInt else CUShort)) idx).
+  { eapply Forall_impl; [|exact Hi]. cbv beta. intros i Hlt.
+    destruct (65535 <? n) eqn:E; cbn [index_word comp_size].
+    - change (256 ^ 4) with 4294967296. rewrite N.mod_small by lia. lia.
+    - change (256 ^ 2) with 65536. rewrite N.mod_small by lia. lia. }
+  split; [|split].
+  - f_equal. apply map_ext_in. intros i Hin. rewrite Forall_forall in Hw. destruct (Hw i Hin) as (-> & _). reflexivity.
+  - eapply Forall_impl; [|exact Hw]. cbv beta. tauto.
+  - split; [cbn; lia|]. unfold vdata_ok. cbn [ck_data ck_comp ck_k]. unfold plain. rewrite !Forall_map. cbn [snd].
+    eapply Forall_impl; [|exact Hw]. cbv beta. intros i (E & Hlt). split; [reflexivity|]. constructor; [|constructor].
+    rewrite E. lia.
+Qed.
+
+(* ------------------------------------------------------------------ scene well-formedness and the headline facts *)
+Definition attrs_ok (k : N) (n : N) (l : list (string * vdata)) : Prop :=
+  Forall (fun nv => vdata_ok (attr_comp (fst nv)) k (snd nv) /\ vcount (snd nv) = n) l.
+(* what a modeling.Mesh guarantees structurally: K components per vector of a K-attribute, float32 / byte
+   words, all attributes of one length, indices below it *)
+Definition mesh_ok (m : pmesh) : Prop :=
+  attrs_ok 4 (attr_len m) (me_v4 m) /\ attrs_ok 3 (attr_len m) (me_v3 m) /\ attrs_ok 2 (attr_len m) (me_v2 m)
+  /\ Forall (fun i => i < attr_len m) (me_idx m) /\ attr_len m < 4294967296.
+Definition inst_ok (i : pinst) : Prop :=
+  elem_ok CFloat 3 (in_t i) /\ elem_ok CFloat 3 (in_s i) /\ elem_ok CFloat 4 (in_r i).
+Definition model_ok (mo : pmodel) : Prop := mesh_ok (mo_mesh mo) /\ Forall inst_ok (mo_inst mo).
+Definition scene_ok (sc : scene) : Prop := Forall model_ok (sc_models sc).
+
+Lemma attr_chunks_ok k n l : 0 < k -> attrs_ok k n l -> Forall chunk_ok (map (attr_chunk k) l).
+Proof.
+  intros Hk H. rewrite Forall_map. eapply Forall_impl; [|exact H]. cbv beta. intros nv (Hd & _).
+  split; [exact Hk|exact Hd].
+Qed.
+Lemma mesh_chunks_ok m : mesh_ok m -> Forall chunk_ok (mesh_chunks m).
+Proof.
+  intros (H4 & H3 & H2 & Hi & Hn). unfold mesh_chunks. repeat (apply Forall_app; split).
+  - eapply attr_chunks_ok; [|exact H4]. lia.
+  - eapply attr_chunks_ok; [|exact H3]. lia.
+  - eapply attr_chunks_ok; [|exact H2]. lia.
+  - constructor; [|constructor]. apply index_values_kept; assumption.
+Qed.
+Lemma plain_ok c k (f : pinst -> elem) ins : Forall (fun i => elem_ok c k (f i)) ins -> vdata_ok c k (plain (map f ins)).
+Proof. intros H. unfold vdata_ok, plain. rewrite !Forall_map. exact H. Qed.
+Lemma inst_chunks_ok ins : Forall inst_ok ins -> Forall chunk_ok (inst_chunks ins).
+Proof.
+  intros H. unfold inst_chunks. repeat constructor; cbn [ck_k vec_chunk]; try lia; cbn [ck_comp ck_data];
+    apply plain_ok; (eapply Forall_impl; [|exact H]); cbv beta; unfold inst_ok; tauto.
+Qed.
+
+Theorem run_chunks_ok sc : scene_ok sc -> exists cks, Forall chunk_ok cks /\ st_b (run sc) = of_chunks cks.
+Proof.
+  apply (run_chunks chunk_ok model_ok).
+  - intros mo (H & _). apply mesh_chunks_ok, H.
+  - intros mo (_ & H). apply inst_chunks_ok, H.
+Qed.
+
+(* views: consecutive from 0, pairwise disjoint, inside the first [b_written] bytes (the declared
+   length of the one buffer); for well-formed scenes that is the actual length of the buffer *)
+Theorem views_tile sc :
+  let st := run sc in let s := to_summary st in
+  tiles 0 (s_views s) (b_written (st_b st)) /\ views_disjoint (s_views s) = true /\
+  forallb (view_ok [b_written (st_b st)]) (s_views s) = true /\
+  s_buffers s = (if 0 <? b_written (st_b st) then [b_written (st_b st)] else []) /\
+  (scene_ok sc -> len (buf st) = b_written (st_b st)).
+Proof.
+  cbv zeta. pose proof (canon_run sc) as Hc. apply canon_of_chunks in Hc.
+  set (cks := b_chunks (st_b (run sc))) in *.
+  unfold to_summary. cbn [s_views s_buffers]. rewrite Hc. cbn [b_views b_written of_chunks].
+  split; [|split; [|split; [|split]]].
+  - apply (tiles_views_of 0 cks).
+  - apply views_disjoint_of.
+  - apply views_in_buffer.
+  - reflexivity.
+  - intros Hok. destruct (run_chunks_ok sc Hok) as (cks' & Hk & E). unfold buf, buf_b. fold cks.
+    assert (Hq : cks = cks') by (unfold cks; rewrite E; reflexivity). rewrite Hq. apply bytes_total, Hk.
+Qed.
+
+(* accessors: accessor i uses view i, starts at its beginning and fills it exactly *)
+Theorem accessors_fit sc : scene_ok sc ->
+  let s := to_summary (run sc) in
+  forallb (acc_ok (s_views s)) (s_accs s) = true /\
+  forall i a, nth_error (s_accs s) i = Some a ->
+    exists v, a_view a = Some (N.of_nat i) /\ nth_error (s_views s) i = Some v /\ a_off a = 0 /\
+              a_count a * a_k a * code_size (a_comp a) = v_len v.
+Proof.
+  intros Hok. cbv zeta. destruct (run_chunks_ok sc Hok) as (cks & Hk & E).
+  unfold to_summary. cbn [s_views s_accs]. rewrite E. cbn [b_views b_accs of_chunks]. split.
+  - apply acc_ok_of. eapply Forall_impl; [|exact Hk]. intros ck (H & _). exact H.
+  - intros i a Ha. assert (Hn : (i < length cks)%nat).
+    { rewrite <- (accs_of_length 0 cks). apply nth_error_Some. congruence. }
+    destruct (nth_error cks i) as [ck|] eqn:En; [|apply nth_error_None in En; lia].
+    destruct (acc_view_of cks i ck En) as (E1 & E2). rewrite Ha in E1. apply some_inj in E1. subst a.
+    eexists. split; [reflexivity|]. split; [exact E2|]. split; [reflexivity|].
+    cbn [a_count a_k a_comp acc_of v_len view_of]. rewrite code_size_comp. reflexivity.
+Qed.
+
+(* payload: decoding accessor i from the buffer returns, in order, the elements of the i-th chunk the
+   writer was handed (attribute vectors as float32 words / bytes, indices, instance transforms) *)
+Theorem payload_decodes sc : scene_ok sc ->
+  let st := run sc in let s := to_summary st in
+  forall i a, nth_error (s_accs s) i = Some a ->
+    exists ck, nth_error (b_chunks (st_b st)) i = Some ck /\ a = acc_of (N.of_nat i) ck /\
+               decode_acc (s_views s) (buf st) a = Some (expand (ck_data ck)).
+Proof.
+  intros Hok. cbv zeta. destruct (run_chunks_ok sc Hok) as (cks & Hk & E).
+  unfold to_summary, buf, buf_b. cbn [s_views s_accs]. rewrite E. cbn [b_views b_accs b_chunks of_chunks].
+  intros i a Ha. assert (Hn : (i < length cks)%nat).
+  { rewrite <- (accs_of_length 0 cks). apply nth_error_Some. congruence. }
+  destruct (nth_error cks i) as [ck|] eqn:En; [|apply nth_error_None in En; lia].
+  destruct (acc_view_of cks i ck En) as (E1 & _). rewrite Ha in E1. apply some_inj in E1. subst a.
+  exists ck. split; [reflexivity|]. split; [reflexivity|]. apply decode_canonical; assumption.
+Qed.
+
+(* the declared bounds of every vector accessor are those of the stored data *)
+Theorem minmax_declared sc : forall i a, nth_error (s_accs (to_summary (run sc))) i = Some a ->
+  exists ck, nth_error (b_chunks (st_b (run sc))) i = Some ck /\
+    (is_idx_comp (ck_comp ck) = true /\ a_min a = [] /\ a_max a = [] \/
+     is_idx_comp (ck_comp ck) = false /\
+     (a_min a, a_max a) = minmax_of (ck_comp ck) (ck_k ck) (run_elems (ck_data ck))).
+Proof.
+  intros i a Ha. pose proof (canon_run sc) as Hc. apply canon_of_chunks in Hc.
+  unfold to_summary in Ha. cbn [s_accs] in Ha. rewrite Hc in Ha. cbn [b_accs of_chunks] in Ha.
+  set (cks := b_chunks (st_b (run sc))) in *.
+  assert (Hn : (i < length cks)%nat).
+  { rewrite <- (accs_of_length 0 cks). apply nth_error_Some. congruence. }
+  destruct (nth_error cks i) as [ck|] eqn:En; [|apply nth_error_None in En; lia].
+  destruct (acc_view_of cks i ck En) as (E1 & _). rewrite Ha in E1. apply some_inj in E1. subst a.
+  exists ck. split; [reflexivity|]. cbn [a_min a_max acc_of].
+  destruct (is_idx_comp (ck_comp ck)); [left; auto|right]. split; [reflexivity|].
+  unfold minmax. destruct (minmax_of _ _ _). reflexivity.
+Qed.
+
+(* component alignment does NOT hold for the faithful model: one triangle (three UNSIGNED_SHORT indices,
+   6 bytes) followed by a second mesh puts a FLOAT view at offset 42 *)
+Definition tri_mesh (ptr : N) : pmesh :=
+  {| me_ptr := ptr; me_point := false; me_v4 := [];
+     me_v3 := [("Position"%string, [(1, [0; 0; 0]); (1, [1065353216; 0; 0]); (1, [0; 1065353216; 0])])];
+     me_v2 := []; me_idx := [0; 1; 2]; me_v1len := 0 |}.
+Definition tri_model (ptr : N) : pmodel :=
+  {| mo_name := "t"%string; mo_mesh := tri_mesh ptr; mo_mat := None; mo_t := None; mo_r := None; mo_s := None; mo_inst := [] |}.
+Definition two_triangles : scene := {| sc_models := [tri_model 0; tri_model 1]; sc_lights := [] |}.
+
+Theorem alignment_refuted_witness :
+  exists sc a v, scene_ok sc /\ In a (s_accs (to_summary (run sc))) /\
+    (exists vi, a_view a = Some vi /\ nth_error (s_views (to_summary (run sc))) (N.to_nat vi) = Some v) /\
+    (v_off v + a_off a) mod code_size (a_comp a) <> 0.
+Proof.
+  exists two_triangles.
+  exists {| a_view := Some 2; a_off := 0; a_comp := 5126; a_k := 3; a_count := 3;
+            a_min := [MF 0; MF 0; MF 0]; a_max := [MF 1065353216; MF 1065353216; MF 0] |}.
+  exists {| v_buf := 0; v_off := 42; v_len := 36; v_target := 34962 |}.
+  split; [|split; [|split]].
+  - unfold scene_ok, two_triangles. cbn [sc_models].
+    repeat constructor; cbn; try lia; try (vm_compute; reflexivity).
+  - vm_compute. right. right. left. reflexivity.
+  - exists 2. split; vm_compute; reflexivity.
+  - vm_compute. discriminate.
+Qed.
